@@ -33,6 +33,8 @@ def run(ctx):
     pa = ctx.prove(PROPS, clean=(COQ_FILES if ctx.tier == "thorough" else False))
     ctx.log("proof ok=%s obligations=%d closed=%d" % (pa["ok"], pa["obligations"], pa["print_assumptions_closed"]))
     vlib.proof_coverage(ctx, pa)
+    if ctx.tier == "thorough" and pa["ok"]:
+        ctx.coqchk(["Scalibr.Remed.Props_C18"])
     binp, out = ctx.harness_build("vulns")
     if binp is None:
         ctx.violation({"kind": "harness-build-failed", "log": out[-3000:],
